@@ -330,7 +330,7 @@ class TextModel:
         r = self.find(old)
         if r is None:
             raise KeyError(old)
-        if self.find(new) is not None:
+        if new != "*" and self.find(new) is not None:
             raise ValueError("in use")
         for x in self.recs:
             if x is r:
